@@ -209,11 +209,11 @@ func checkDefs() map[string]CheckDef {
 		"blocks longer than the bound; more than 6 headers per block; header-specific value rewriting (C05/C09)")
 
 	add("C08",
-		cat(each("H_C08", l(0), l(14, 15)), each("H_C08", l(23), l(9)), each("H_C08", l(24, 25), l(6)), each("H_C08", l(26, 27), l(4)),
-			each("H_C08_at", l(24, 25), l(6), l(3, 300)), each("H_C08_at", l(23), l(6), l(1)), each("H_C08_at", l(26, 27), l(4), l(20)), each("H_C08_at", l(0), l(14), l(1))),
-		cat(each("H_C08", l(0), l(16, 17, 18, 19, 20)), each("H_C08", l(24, 25), l(8, 10)), each("H_C08", l(23), l(10)),
+		cat(each("H_C08", l(0), l(14, 15, 16)), each("H_C08", l(23), l(9)), each("H_C08", l(24, 25), l(6)), each("H_C08", l(26, 27), l(4)),
+			each("H_C08_at", l(24, 25), l(6), l(3, 300)), each("H_C08_at", l(23), l(6), l(1)), each("H_C08_at", l(26, 27), l(4), l(20)), each("H_C08_at", l(0), l(14, 16), l(1))),
+		cat(each("H_C08", l(0), l(17, 18, 19, 20)), each("H_C08", l(24, 25), l(8, 10)), each("H_C08", l(23), l(10)),
 			each("H_C08_at", l(24, 25), l(8), l(1, 14, 4096)), each("H_C08_at", l(0), l(16), l(2, 13))),
-		"ParseFLine vs. a non-incremental reference on fully symbolic lines of 14-15 (20) bytes and templates: 9 symbolic method bytes, symbolic status/reason, symbolic URI/version; the same with the line at a non-zero offset and delivered in two pieces (every cut)",
+		"ParseFLine vs. a non-incremental reference on fully symbolic lines of 14-16 (20) bytes and templates: 9 symbolic method bytes, symbolic status/reason, symbolic URI/version; the same with the line at a non-zero offset and delivered in two pieces (every cut; fully symbolic lines of 14 and 16 bytes, so that a cut behind the 14-byte look-ahead exists)",
 		"lines longer than the bound")
 
 	add("C09",
@@ -262,11 +262,12 @@ func checkDefs() map[string]CheckDef {
 			each("H_reset", l(5), l(23, 24), l(4), l(24, 25), l(4)),
 			each("H_reset", l(40, 44, 45, 46), l(3, 4, 1, 11, 12), l(4), l(9, 3, 4), l(3)),
 			each("H_reset", l(44, 45), l(44, 45, 52, 55, 32, 34, 35), l(4), l(3, 4, 44), l(3)),
-			each("H_reset", l(12, 14, 16, 17), l(58, 59, 62), l(3), l(59, 0), l(4))),
+			each("H_reset", l(12, 14, 16, 17), l(58, 59, 62), l(3), l(59, 0), l(4)),
+			each("H_reset", l(13, 14, 15), l(73, 74, 16, 75), l(3), l(73, 16, 75), l(3))),
 		cat(each("H_reset", l(0, 1, 2), l(0), l(8), l(0), l(7)),
 			each("H_reset", l(6, 8, 13, 16, 23, 30), l(0), l(7), l(0), l(6)),
 			each("H_reset", l(40, 45), l(3, 4, 1, 11, 12, 44, 45), l(6), l(9, 3, 5, 44), l(4))),
-		"history A (fully symbolic 6 (7; 8 for CSeq / Call-ID / numbers) bytes or a header / name-addr template with a 3-4 (6) byte window, abandoned at every symbolic cut incl. complete / failed) -> the type's Reset -> input B (5-6 (6-7) symbolic bytes / template) vs. a new object with the same caller arrays: complete object state equal after reset (=> histories of any length), same verdict / offset / observables on B; all parser object types incl. caller arrays of capacity 0,1,2",
+		"history A (fully symbolic 6 (7; 8 for CSeq / Call-ID / numbers) bytes or a header / name-addr template with a 3-4 (6) byte window, abandoned at every symbolic cut incl. complete / failed) -> the type's Reset -> input B (5-6 (6-7) symbolic bytes / template) vs. a new object with the same caller arrays: complete object state equal after reset (=> histories of any length), same verdict / offset / observables on B; all parser object types incl. caller arrays of capacity 0,1,2; stand-alone header-block objects (HdrLst + PHdrVals, capacities (2,2),(1,1),(0,0)) abandoned inside a P-Asserted-Identity / Contact / To value (3-byte window, also inside the quoted name of the first PAI value) and re-used on a block with the same kind of header",
 		"PsipURI (plain struct assignment), longer inputs")
 
 	add("C13",
@@ -284,9 +285,9 @@ func checkDefs() map[string]CheckDef {
 		"GetMsgSig capacity behaviour is C19")
 
 	add("C14",
-		cat(each("H_C14", l(0), seq(1, 8)), each("H_C14", l(1, 2), seq(1, 6))),
-		cat(each("H_C14", l(0), l(9, 10, 11, 12)), each("H_C14", l(1, 2), l(7, 8, 9, 10))),
-		"ParseURI on scheme (any letter case, symbolic) + 1..8 (12) fully symbolic bytes: on success the components joined with their delimiters reproduce the input position by position, order, consumed length, numeric port == decimal value of the port text; error positions inside the input",
+		cat(each("H_C14", l(0), seq(1, 9)), each("H_C14", l(1, 2), seq(1, 7))),
+		cat(each("H_C14", l(0), l(10, 11, 12)), each("H_C14", l(1, 2), l(8, 9, 10))),
+		"ParseURI on scheme (any letter case, symbolic) + 1..9 (12) fully symbolic bytes: on success the components joined with their delimiters reproduce the input position by position, order, consumed length, numeric port == decimal value of the port text; error positions inside the input",
 		"tel: texts containing '@' (not a tel number); longer URIs")
 
 	add("C15",
@@ -308,15 +309,15 @@ func checkDefs() map[string]CheckDef {
 		cat(each("H_C17_tok", l(0), l(6), seq(0, 6)), each("H_C17_tok", l(20), l(4), l(0, 1, 2)), each("H_C17_lists", l(0), l(6), l(0, 1, 3)),
 			each("H_C17_tok", l(67, 68), l(3), seq(0, 6)), each("H_C17_tok_chunk", l(67, 68), l(3), l(0, 1, 6)),
 			each("H_C17_tok_chunk", l(0), l(6), l(0, 1, 6)), each("H_C17_tok_chunk", l(20), l(4), l(0, 1)),
-			each("H_C17_shape", seq(0, 6), l(2)), each("H_C17_hlists", l(0), l(6), l(0, 1, 3)), each("H_C17_hlists", l(65), l(3), l(0, 2))),
-		cat(each("H_C17_tok", l(0), l(8, 9, 10), seq(0, 6)), each("H_C17_tok_chunk", l(0), l(8, 9), l(0, 1, 6)), each("H_C17_tok", l(67, 68), l(5), seq(0, 6)), each("H_C17_tok_chunk", l(67, 68), l(5), l(0, 1, 6)), each("H_C17_lists", l(0), l(8, 9), l(0, 2)), each("H_C17_shape", seq(0, 6), l(4)), each("H_C17_hlists", l(0), l(8), l(0, 2))),
-		"ParseTokenParam in its documented loop on 6 (10) fully symbolic bytes for 7 option sets (both separators, ',' '?' end-of-header and end-of-input terminators): every reported name/value is inside the documented character set, stripped, in order, with exactly one '=' between them, complete quoted values that end at the first unescaped quote (templates with a 3 (5)-byte window inside a quoted value), and nothing but LWS / separators lies outside the reported parameters; completeness: a 3-parameter list built by construction from symbolic bytes of the documented character set (2 (4)-byte name and value, 1-byte valueless name, quoted value, optional SP / HT around separators) is accepted and reported exactly as written, all 7 option sets; list wrappers (URI parameters and URI headers) count / classify / accumulate; the same loop over an input delivered in two pieces (every cut) for the option sets without the end-of-input option",
+			each("H_C17_shape", seq(0, 6), l(2)), each("H_C17_emptyval", seq(0, 6), l(2)), each("H_C17_hlists", l(0), l(6), l(0, 1, 3)), each("H_C17_hlists", l(65), l(3), l(0, 2))),
+		cat(each("H_C17_tok", l(0), l(8, 9, 10), seq(0, 6)), each("H_C17_tok_chunk", l(0), l(8, 9), l(0, 1, 6)), each("H_C17_tok", l(67, 68), l(5), seq(0, 6)), each("H_C17_tok_chunk", l(67, 68), l(5), l(0, 1, 6)), each("H_C17_lists", l(0), l(8, 9), l(0, 2)), each("H_C17_shape", seq(0, 6), l(4)), each("H_C17_emptyval", seq(0, 6), l(4)), each("H_C17_hlists", l(0), l(8), l(0, 2))),
+		"ParseTokenParam in its documented loop on 6 (10) fully symbolic bytes for 7 option sets (both separators, ',' '?' end-of-header and end-of-input terminators): every reported name/value is inside the documented character set, stripped, in order, with exactly one '=' between them, complete quoted values that end at the first unescaped quote (templates with a 3 (5)-byte window inside a quoted value), and nothing but LWS / separators lies outside the reported parameters; completeness: a 3-parameter list built by construction from symbolic bytes of the documented character set (2 (4)-byte name and value, 1-byte valueless name, quoted value, optional SP / HT around separators) is accepted and reported exactly as written, all 7 option sets; an empty value followed by the separator and a further parameter (`n=` SEP `m=v`) is reported as an empty value and the list continues; list wrappers (URI parameters and URI headers) count / classify / accumulate; the same loop over an input delivered in two pieces (every cut) for the option sets without the end-of-input option",
 		"POptTokSpTermF lists; longer inputs")
 
 	add("C18",
-		cat(each("H_C18", l(0), seq(1, 7)), each("H_C18", l(1, 2), seq(1, 5))),
-		cat(each("H_C18", l(0), l(8, 9, 10, 11)), each("H_C18", l(1, 2), l(6, 7, 8, 9))),
-		"accepted URIs of scheme + 1..7 (11) symbolic bytes relocated onto every 16-bit (offset, length) target with offset+length <= 65535 (both symbolic words, no sampling); Long/Short/Flat/Truncate views",
+		cat(each("H_C18", l(0), seq(1, 9)), each("H_C18", l(1, 2), seq(1, 6))),
+		cat(each("H_C18", l(0), l(10, 11)), each("H_C18", l(1, 2), l(7, 8, 9))),
+		"accepted URIs of scheme + 1..9 (11) symbolic bytes relocated onto every 16-bit (offset, length) target with offset+length <= 65535 (both symbolic words, no sampling); Long/Short/Flat/Truncate views",
 		"longer URIs")
 
 	add("C19",
